@@ -460,10 +460,26 @@ func runC08(r *Report, rng *rand.Rand, thorough bool) {
 				func(n string) bool { return n != "Colour" && n != "Item" && !arrays[n] }},
 			{"old-aliasing", func(c *codegen.Configuration) { c.Compatibility.OldAliasing = true }, func(n string) bool { return false }},
 		}
+		acases := NewCases("cases_C08_alias", "From V Require Import Model.TypeMap Corr.Eval.", "bool * bool * tkind * bool", "mismatches_alias")
+		defer acases.WriteTo(r)
+		kindOf := map[string]string{"Items": "KArray", "Names": "KArray", "PostThingsJSONBody": "KArray", "Count": "KPrimitive", "Label": "KPrimitive", "Ratio": "KPrimitive", "Flag": "KPrimitive",
+			"ItemsRef": "KReference", "Colour": "KEnum", "Item": "KStruct"}
 		for _, st := range sets {
 			var cfg codegen.Configuration
 			st.tune(&cfg)
 			ds, err := declsOf(cfg)
+			if err == nil {
+				names := make([]string, 0, len(kindOf))
+				for n := range kindOf {
+					names = append(names, n)
+				}
+				sort.Strings(names)
+				for _, n := range names {
+					if d, ok := ds[n]; ok {
+						acases.Add(fmt.Sprintf("(%v, %v, %s, %v)", cfg.Compatibility.OldAliasing, len(cfg.OutputOptions.DisableTypeAliasesForType) > 0, kindOf[n], d.alias), map[string]any{"option": st.name, "type": n})
+					}
+				}
+			}
 			if err != nil {
 				r.Violate("type_alias_switch_generate_error/"+st.name, err.Error(), nil)
 				continue
